@@ -106,6 +106,7 @@ EXPORT errno_t _strcmpfld_s_chk(const char *dest, rsize_t dmax, const char *src,
         dmax--;
     }
 
-    *resultp = *dest - *src;
+    /* compare as unsigned char; after dmax equal characters the fields are equal */
+    *resultp = dmax ? (unsigned char)*dest - (unsigned char)*src : 0;
     return (EOK);
 }
